@@ -154,7 +154,19 @@ def main(argv=None):
         except ImportError:
             proof = None
         if proof:
+            seen_clauses = {}
             for ob in proof["failed"]:
+                # one VIOLATION line per failing clause of a function (family members / paths of the same clause are
+                # counted in the replay file of the first one, which carries a replayed input when there is any)
+                clause_name = ob["name"].split("@")[0]
+                if clause_name in seen_clauses:
+                    seen_clauses[clause_name]["also_failing"].append(ob["name"])
+                    if ob.get("replayed") and not seen_clauses[clause_name].get("replayed"):
+                        seen_clauses[clause_name].update({k2: ob[k2] for k2 in ("model", "replay", "replayed", "variant", "name")})
+                    continue
+                ob = dict(ob, also_failing=[])
+                seen_clauses[clause_name] = ob
+            for ob in seen_clauses.values():
                 k = match_known(known, prop, "obligation", ob["name"])
                 if k:
                     known_lines.append(f"KNOWN-FINDING: property={prop} {k['what']} [obligation {ob['name']}]")
